@@ -68,6 +68,9 @@ FIXED = {
     "default.clifford analytic probs mask": ("C70", "default.clifford analytic probs zeroed states with a different prefix (operator precedence `a & b != c`)"),
     "default.clifford mutual_info subtracts": ("C70", "default.clifford mutual_info returned S(A)+S(B) without -S(AB)"),
     "compute_vjp_multi keeps autograd boxes": ("C37", "nested qp.jacobian (max_diff=2) of a multi-measurement QNode with a gradient transform under autograd returned all zeros"),
+    "Prod.simplify kept a stale hash": ("C03", "prod(RX(a), RX(-a), RX(-a)).simplify() returned Identity (stale hash after merging same-axis rotations)"),
+    "ChangeOpBasis pauli_rep multiplied": ("C01", "change_op_basis(X, Y, Z).pauli_rep was the product in reversed order (i*I instead of -i*I)"),
+    "Z/S/T.pow returned an unqueued copy": ("C41", "qp.pow(Z(0), 3, lazy=False) inside a recording context removed the gate (also S**5, T**9)"),
     "clifford_t_decomposition maps PhaseShift(3 pi/4)": ("C15", "clifford_t_decomposition mapped PhaseShift(3pi/4) / PhaseShift(5pi/4) to a bare T-adjoint / T (error 2.0)"),
     "IntegerComparator(geq=False) matrix": ("C10", "IntegerComparator(value > 2**n, geq=False).matrix() raised ValueError"),
 }
